@@ -60,7 +60,9 @@ func (ex *Exec) convert(fr *Frame, st *State, v Val, from, to types.Type, pos to
 				if !fsigned {
 					op = "to_fp_unsigned"
 				}
-				return ex.define("cv", &Term{S: fmt.Sprintf("((_ %s %d %d) RNE %s)", op, e, s, x.S), Sort: ts})
+				r := ex.define("cv", &Term{S: fmt.Sprintf("((_ %s %d %d) RNE %s)", op, e, s, x.S), Sort: ts})
+				ex.intToFloat[r.S] = &Term{S: x.S, Sort: x.Sort, Signed: fsigned}
+				return r
 			case isFP(fs) && isFP(ts):
 				if fs == ts {
 					return x
